@@ -719,6 +719,7 @@ func lifecycleCase(r *rand.Rand, idx int) caseOut {
 	parser := operationparser.New(cfg)
 	applier := operationapplier.New(cfg, parser, doccomposer.New())
 	allBuilt, allParsed, anchoredOK, linkedOK := true, true, true, true
+	var anchoredBytes []string // per applied step: the anchored request bytes (Gallina option)
 	var why []string
 	hc := &histCase{Cfg: cfg, Label: label}
 	rm := &protocol.ResolutionModel{PublishedOperations: []*operation.AnchoredOperation{{TransactionTime: 9, TransactionNumber: 102}, {TransactionTime: 3, TransactionNumber: 101}},
@@ -731,6 +732,13 @@ func lifecycleCase(r *rand.Rand, idx int) caseOut {
 			continue
 		}
 		mop, perr := parser.ParseOperation(ns, st.bytes, false)
+		// a protocol whose maximum operation size is exactly this request's length accepts it
+		exact := cfg
+		exact.MaxOperationSize = uint(len(st.bytes))
+		if _, eerr := operationparser.New(exact).ParseOperation(ns, st.bytes, false); perr == nil && eerr != nil {
+			allParsed = false
+			why = append(why, fmt.Sprintf("step %d (%s): refused under a maximum operation size equal to its length (%d): %v", i, st.typ, len(st.bytes), eerr))
+		}
 		if perr != nil {
 			allParsed = false
 			why = append(why, fmt.Sprintf("step %d (%s): parser refused: %v", i, st.typ, perr))
@@ -768,8 +776,12 @@ func lifecycleCase(r *rand.Rand, idx int) caseOut {
 			why = append(why, fmt.Sprintf("step %d (%s): applier refused: %v", i, st.typ, err))
 		}
 		hc.Steps = append(hc.Steps, hs)
+		anchoredBytes = append(anchoredBytes, "None")
 		if perr == nil {
 			anch, aerr := model.GetAnchoredOperation(mop)
+			if aerr == nil {
+				anchoredBytes[len(anchoredBytes)-1] = "(Some " + cStr(string(anch.OperationRequest)) + ")"
+			}
 			var reqTree interface{}
 			json.Unmarshal(st.bytes, &reqTree)
 			if aerr != nil || string(anch.OperationRequest) != string(jcs(reqTree)) || anch.UniqueSuffix != mop.UniqueSuffix || anch.Type != mop.Type ||
@@ -805,8 +817,8 @@ func lifecycleCase(r *rand.Rand, idx int) caseOut {
 	rec["notes"] = why
 	rec["expected_document_after_each_step"] = expAfter
 	return caseOut{
-		Coq: fmt.Sprintf("(mk_c08 %s %s %s %s %s %s %s %s %s %s %s)", hc.coq(), expDocsCoq(expAfter), cObj(normJSON(expDocJSON).(map[string]interface{})), cStr(expUpd), cStr(expRec),
-			cBool(deactivate_), cJSON(normJSON(origin)), cBool(allBuilt), cBool(allParsed), cBool(anchoredOK), cBool(linkedOK)),
+		Coq: fmt.Sprintf("(mk_c08 %s %s %s %s %s %s %s %s %s %s %s %s)", hc.coq(), expDocsCoq(expAfter), cObj(normJSON(expDocJSON).(map[string]interface{})), cStr(expUpd), cStr(expRec),
+			cBool(deactivate_), cJSON(normJSON(origin)), cBool(allBuilt), cBool(allParsed), cBool(anchoredOK), cBool(linkedOK), cList(anchoredBytes)),
 		Rec: rec, Label: label, NonTri: fmt.Sprintf("%x", h[:8]),
 	}
 }
